@@ -10,11 +10,15 @@
                           written by harness/c18.go by reflection over the Go structures
      defs                 regimes, addons, catalogues, currency codes, ISO and tax country codes
      validate_refs        the reference rules transcribed from tax/combo.go, tax/regime_def.go
-                          (InCategories, InCategoryRates, Key.Has), tax/extensions.go
+                          (InCategories, InCategoryRates, Key.HasPrefix), tax/extensions.go
                           (Extensions.Validate: registered key, listed code, pattern), tax/tags.go +
                           bill/invoice.go (supportedTags, TagsIn), tax/addons.go (AddonRegistered),
                           currency/code.go, l10n/country.go - for the code AFTER the proposed repairs
-                          (fixes/C18-*.diff: `$regime` and a combo's country are looked up)
+                          (fixes/C18-*.diff: `$regime` and a combo's country are looked up) and the
+                          repair "a rate key is only accepted when its first component is a rate of
+                          the category" (inCategoryRatesRule: key.HasPrefix(k) instead of key.Has(k))
+     in_category_rates_any_part   the rate-key rule as shipped before that repair (any `+` component)
+     key_first k          the text before the first `+` of a key (the whole key without `+`)
      validate_refs_shipped  the same rules as shipped (neither is looked up)
      refs d               every reference the view makes;  resolves defs rf: what it means for it to
                           resolve (RegimeOf, ExtDefined, Offers: readable In-statements)
@@ -90,14 +94,45 @@ Theorem combo_category_resolves :
 Proof. exact combo_category_resolves_lemma. Qed.
 Print Assumptions combo_category_resolves.
 
-(* a rate key is (in one of its `+` parts) a rate of that category of that regime *)
+(* a rate key is - in its FIRST `+` component - a rate of that category of that regime *)
 Theorem combo_rate_key_resolves :
   forall (mp : bytes -> bytes -> bool) (d : defs) (r : doc_refs) (c : combo_ref),
     validate_refs mp d r = true -> In c (r_combos r) -> cr_rate c <> [] ->
     exists rg ca rt, RegimeOf d (applying_country (r_regime r) c) rg /\ In ca (rg_categories rg) /\
-                     cat_code ca = cr_cat c /\ In rt (cat_rates ca) /\ In (rt_key rt) (key_parts (cr_rate c)).
+                     cat_code ca = cr_cat c /\ In rt (cat_rates ca) /\ key_first (cr_rate c) = rt_key rt.
 Proof. exact combo_rate_key_resolves_lemma. Qed.
 Print Assumptions combo_rate_key_resolves.
+
+(* the rate-key rule is exact for the regime the look-up finds: a key whose first component is a rate
+   of the category is accepted (extended keys such as `exempt+reverse-charge` stay valid) *)
+Theorem rate_key_with_defined_first_component_accepted :
+  forall (r : regime) (ca : category) (cat rate : str) (rt : ratedef),
+    category_for r cat = Some ca -> In rt (cat_rates ca) -> key_first rate = rt_key rt ->
+    in_category_rates (Some r) cat rate = true.
+Proof. exact in_category_rates_complete. Qed.
+Print Assumptions rate_key_with_defined_first_component_accepted.
+
+(* the repaired rule accepts no more than the rule as shipped before it ... *)
+Theorem rate_key_rule_stricter_than_shipped :
+  forall (r : option regime) (cat rate : str),
+    in_category_rates r cat rate = true -> in_category_rates_any_part r cat rate = true.
+Proof. exact in_category_rates_stricter. Qed.
+Print Assumptions rate_key_rule_stricter_than_shipped.
+
+(* ... and strictly less: as shipped, `bogus+standard` was accepted in ES VAT (`standard` is SOME
+   component) although `bogus` is not a rate there; after the repair it is refused like `bogus` *)
+Theorem rate_key_any_component_shipped_refuted :
+  let es := regime_for in_code_defs "ES" in
+  in_category_rates_any_part es "VAT" "bogus+standard" = true /\
+  in_category_rates es "VAT" "bogus+standard" = false /\
+  in_category_rates es "VAT" "bogus" = false /\
+  in_category_rates es "VAT" "bogus+standard+x" = false /\
+  in_category_rates es "VAT" "eqs+standard" = false /\
+  in_category_rates es "VAT" "standard+bogus" = true /\
+  in_category_rates es "VAT" "standard+eqs" = true /\
+  in_category_rates es "VAT" "exempt+reverse-charge" = true.
+Proof. exact rate_key_any_part_witness. Qed.
+Print Assumptions rate_key_any_component_shipped_refuted.
 
 (* every extension entry, in a combo or anywhere else: defined key, listed code, matching pattern *)
 Theorem extension_value_allowed_or_matches_pattern :
@@ -156,13 +191,14 @@ Example undefined_references_are_rejected :
         mkDocRefs "ES" [] "bill/order" ["simplified"] [] [] [] [];
         mkDocRefs "ES" [] "bill/invoice" [] [mkComboRef "" "QQ" "" "" []] [] [] [];
         mkDocRefs "ES" [] "bill/invoice" [] [mkComboRef "" "VAT" "zz-unknown" "" []] [] [] [];
+        mkDocRefs "ES" [] "bill/invoice" [] [mkComboRef "" "VAT" "bogus+standard" "" []] [] [] [];
         mkDocRefs "ES" [] "bill/invoice" [] [mkComboRef "" "VAT" "standard" "QQ" []] [] [] [];
         mkDocRefs "ES" [] "bill/invoice" [] [] [mkExtRef "" "zz-unknown" "1"] [] [];
         mkDocRefs "ES" [] "bill/invoice" [] [] [mkExtRef "" "es-facturae-doc-type" "QQ"] [] [];
         mkDocRefs "ES" [] "bill/invoice" [] [] [] [mkCurrencyRef "" "XXX"] [];
         mkDocRefs "ES" [] "bill/invoice" [] [] [] [] [mkCountryRef "" CkISO "QQ"];
         mkDocRefs "ES" [] "bill/invoice" [] [] [] [] [mkCountryRef "" CkRegime "QQ"] ]
-  = repeat false 11.
+  = repeat false 12.
 Proof. exact undefined_references_rejected. Qed.
 
 (* pattern-valued extensions: a matching value is accepted, others are not *)
